@@ -17,7 +17,7 @@ import tempfile
 from lib.core import ShardResult
 
 LEVEL = 'exploration'
-RULE = ('every concatenation of <= N atoms (quick 3, thorough 5) over 15 atoms as require() string x 5 load-path '
+RULE = ('every concatenation of <= N atoms (quick 3, thorough 5) over 15 atoms as require() string (in 7 spellings of the call: parentheses, string-call sugar with each quote kind, with options, inside expressions) x 5 load-path '
         'settings (default, ?/init.lua, lib/?.lua, absolute dir, PICO8_LUA_PATH environment variable) and as #include '
         'path x 4 cart locations (plain directory, below the PICO-8 carts root, in and below a sibling "carts2" sharing '
         'the root\'s name prefix); non-trivial = the string contains "..", "/" at the start, an absolute path or a '
@@ -137,14 +137,28 @@ def location_class(sb, rp):
 LOADPATHS = ['default', 'init', 'libdir', 'absolute', 'env']
 
 
-def check_require(sb, p, lp, res):
+FORMS = ['paren', 'sugar-dq', 'sugar-sq', 'sugar-long', 'assign-sugar', 'paren-opts', 'expr-paren']
+
+
+def require_call(p, form):
+    q = p.encode()
+    return {'paren': b'require("' + q + b'")\n',
+            'sugar-dq': b'require "' + q + b'"\n',
+            'sugar-sq': b"require'" + q + b"'\n",
+            'sugar-long': b'require[[' + q + b']]\n',
+            'assign-sugar': b'local m = require "' + q + b'"\nx = m\n',
+            'paren-opts': b'require("' + q + b'", {use_game_loop=true})\n',
+            'expr-paren': b'local m = {lib=require("' + q + b'")}\n'}[form]
+
+
+def check_require(sb, p, lp, res, form='paren'):
     from pico8 import tool
     res.evaluations += 1
     main = os.path.join(sb.proj, 'main.lua')
     out = os.path.join(sb.proj, 'out.p8')
     if os.path.exists(out):
         os.unlink(out)
-    open(main, 'wb').write(b'require("' + p.encode() + b'")\n')
+    open(main, 'wb').write(require_call(p, form))
     args = ['build', out, '--lua', main]
     allowed = [sb.proj]
     env_old = os.environ.pop('PICO8_LUA_PATH', None)
@@ -158,7 +172,7 @@ def check_require(sb, p, lp, res):
     elif lp == 'env':
         os.environ['PICO8_LUA_PATH'] = sb.libs + '/?.lua;?;?.lua'
         allowed.append(sb.libs)
-    case = {'kind': 'require', 'p': p.replace(sb.root, '<SB>'), 'loadpath': lp}
+    case = {'kind': 'require', 'p': p.replace(sb.root, '<SB>'), 'loadpath': lp, 'form': form}
     if any(t in p for t in ('..', 'foobar', sb.abs, '~')) or p.startswith('/'):
         res.nontriv(('require', p, lp))
     home_old = os.environ.get('HOME')
@@ -183,15 +197,15 @@ def check_require(sb, p, lp, res):
         if rp in (os.path.realpath(main), os.path.realpath(out)):
             continue
         if not any(under(rp, a) for a in allowed):
-            res.violation('C12|require|opened-outside|%s|loadpath=%s' % (location_class(sb, rp), lp),
-                          'require(%r) with load path %s opened %s, outside the requiring file\'s directory and the load '
-                          'path' % (p.replace(sb.root, '<SB>'), lp, os.path.relpath(rp, sb.root)), case)
+            res.violation('C12|require|opened-outside|%s|loadpath=%s%s' % (location_class(sb, rp), lp, '' if form == 'paren' else '|form=' + form),
+                          ('require(%r) [call form %s] with load path %s opened %s, outside the requiring file\'s directory and '
+                           'the load path') % (p.replace(sb.root, '<SB>'), form, lp, os.path.relpath(rp, sb.root)), case)
             return
     res.outcome(('require', rcode == 0, err is not None))
     res.cover('require_outcomes', ('ok' if rcode == 0 else 'refused'))
 
 
-def check_require_nested(sb, p, lp, res):
+def check_require_nested(sb, p, lp, res, form='paren'):
     """The require() sits in a module that lives in a subdirectory: its own directory is the permitted root."""
     from pico8 import tool
     res.evaluations += 1
@@ -201,7 +215,7 @@ def check_require_nested(sb, p, lp, res):
     if os.path.exists(out):
         os.unlink(out)
     open(main, 'wb').write(b'require("sub/a")\n')
-    open(mod, 'wb').write(b'require("' + p.encode() + b'")\n')
+    open(mod, 'wb').write(require_call(p, form))
     args = ['build', out, '--lua', main]
     allowed = [os.path.join(sb.proj, 'sub')]
     env_old = os.environ.pop('PICO8_LUA_PATH', None)
@@ -210,7 +224,7 @@ def check_require_nested(sb, p, lp, res):
         allowed.append(sb.libs)
     elif lp == 'init':
         args += ['--lua-path', '?;?.lua;?/init.lua']
-    case = {'kind': 'require-nested', 'p': p.replace(sb.root, '<SB>'), 'loadpath': lp}
+    case = {'kind': 'require-nested', 'p': p.replace(sb.root, '<SB>'), 'loadpath': lp, 'form': form}
     res.nontriv(('nested', p, lp))
     home_old = os.environ.get('HOME')
     os.environ['HOME'] = sb.home
@@ -233,7 +247,7 @@ def check_require_nested(sb, p, lp, res):
         if rp in (os.path.realpath(main), os.path.realpath(out), os.path.realpath(mod)):
             continue
         if not any(under(rp, a) for a in allowed):
-            res.violation('C12|require-nested|opened-outside|%s|loadpath=%s' % (location_class(sb, rp), lp),
+            res.violation('C12|require-nested|opened-outside|%s|loadpath=%s%s' % (location_class(sb, rp), lp, '' if form == 'paren' else '|form=' + form),
                           'require(%r) inside sub/a.lua (load path %s) opened %s, outside sub/ and the load path' % (
                               p.replace(sb.root, '<SB>'), lp, os.path.relpath(rp, sb.root)), case)
             return
@@ -317,9 +331,17 @@ def run_shard(item):
             if not any(a in combo for a in INCLUDE_ONLY):
                 for lp in LOADPATHS:
                     check_require(sb, p, lp, res)
+                # the other spellings of the call (string-call sugar, options table, inside an expression): every form for
+                # short strings, one rotating form beyond
+                if p and "'" not in p and ']]' not in p:
+                    forms = FORMS[1:] if len(combo) <= 2 else [FORMS[1 + i % (len(FORMS) - 1)]]
+                    for j, form in enumerate(forms):
+                        for lp in (LOADPATHS if len(combo) <= 1 else [LOADPATHS[(i + j) % len(LOADPATHS)], 'default']):
+                            check_require(sb, p, lp, res, form)
                 if p and len(combo) <= 2:
                     for lp in ('default', 'init', 'absolute'):
                         check_require_nested(sb, p, lp, res)
+                    check_require_nested(sb, p, 'default', res, FORMS[1 + i % (len(FORMS) - 1)])
             # #include: the path must be one \S+ token
             if p and ' ' not in p:
                 for loc in CART_LOCS:
@@ -339,9 +361,9 @@ def replay(case):
         p = case['p']
         p = p.replace('<SB>', sb.root)
         if case['kind'] == 'require-nested':
-            check_require_nested(sb, p, case['loadpath'], res)
+            check_require_nested(sb, p, case['loadpath'], res, case.get('form', 'paren'))
         elif case['kind'] == 'require':
-            check_require(sb, p, case['loadpath'], res)
+            check_require(sb, p, case['loadpath'], res, case.get('form', 'paren'))
         else:
             check_include(sb, p, case['loc'], res)
     finally:
